@@ -396,3 +396,129 @@ def check_float_roundtrip(ctx, rep):
     else:
         rep.bad("R-CONFIG", "R-CONFIG:serde_json:float_roundtrip", "Cargo.toml", "serde_json is built without `float_roundtrip`: its fast float parser is up to one ULP off, so a finite number written to Hayson does not always read back to the same f64 (e.g. 3e25 -> 3.0000000000000005e25)")
     return 1
+
+
+def _visit_map_loop(prog):
+    vm = next((b for b in prog.bodies.values() if b.short == "<haystack::encoding::json::decode::JsonValueDecoderVisitor as serde::de::Visitor>::visit_map"), None)
+    if vm is None:
+        return None, None, None
+    for scc in vm.sccs():
+        for b in scc:
+            if vm.term(b)["k"] == "call" and strip_generics(mir.callee_name(vm.term(b)) or "") == "serde::de::MapAccess::next_entry":
+                return vm, scc, b
+    return vm, None, None
+
+
+def check_member_loop(ctx, rep):
+    """inside visit_map's member loop (a) no branch looks at the members collected so far (that would make the result
+    depend on member order) and (b) every member other than "_kind" is inserted into the collected dict on every path"""
+    prog = ctx.prog
+    vm, loop, nb = _visit_map_loop(prog)
+    if loop is None:
+        rep.gap("visit_map:loop", "-", "member loop not found")
+        return 0
+    n = 0
+    # the local holding the collected members: receiver of BTreeMap/Dict insert inside the loop
+    ins = []
+    dict_repr = None
+    for b in sorted(loop):
+        t = vm.term(b)
+        if t["k"] == "call":
+            nm = strip_generics(mir.callee_name(t) or "")
+            if nm.endswith("BTreeMap::insert") or nm.endswith("Dict::insert"):
+                ins.append(b)
+                dict_repr = repr(G.describe(vm, t["args"][0]))
+    if not ins:
+        rep.bad("T-ORDER", "T-ORDER:member-loop:inserts", vm.where(nb), "no member is ever inserted into the collected dict inside the loop")
+        return 1
+    base = re.sub(r"^<.*?>::deref(_mut)?\((.*)\)$", r"\2", dict_repr)
+    base = base.replace("*", "")
+    # (a) no switch on state of the collected dict
+    bad_a = []
+    for b in sorted(loop):
+        t = vm.term(b)
+        if t["k"] != "switch":
+            continue
+        v = G.describe(vm, t["op"])
+        r = repr(v)
+        if re.search(r"(is_empty|::len|contains_key|::get|::first|::last|::keys|::values)\(", r) and base in r.replace("*", ""):
+            bad_a.append((b, r))
+    n += 1
+    if bad_a:
+        rep.bad("T-ORDER", "T-ORDER:member-loop:branch-on-collected-members", vm.where(bad_a[0][0]), "a branch inside the member loop tests the members collected so far (%s): the decoded value depends on where a member appears in the object" % bad_a[0][1][:120])
+    else:
+        rep.ok("T-ORDER", "member-loop:no-branch-on-collected-members", vm.where(nb), "no branch in the loop reads the state of the collected dict")
+    # (b) every way round the loop inserts the member, except under key == "_kind"
+    kind_true = set()
+    for b in sorted(loop):
+        t = vm.term(b)
+        if t["k"] == "switch":
+            v = G.describe(vm, t["op"])
+            if v.kind == "call" and v.v.endswith("::eq") and any(a.kind == "conststr" and a.v == "_kind" for a in v.args):
+                vals = {int(x[0]): x[1] for x in t["targets"]}
+                te = t["otherwise"] if 0 in vals else vals.get(1)
+                if te is not None:
+                    kind_true.add(te)
+    start = vm.term(nb).get("t")
+    header = nb
+    seen = set()
+    st = [start]
+    escape = None
+    while st:
+        b = st.pop()
+        if b in seen or b not in loop:
+            continue
+        seen.add(b)
+        if b in ins or b in kind_true:
+            continue
+        for x in vm.succ(b):
+            if x == header:
+                escape = b
+            elif x in loop and x not in seen:
+                st.append(x)
+    n += 1
+    if escape is not None:
+        rep.bad("T-KEEP", "T-KEEP:member-loop:every-member-inserted", vm.where(escape), "a member other than \"_kind\" can be skipped (the loop continues from bb%d without dict.insert): that tag is lost when decoding" % escape)
+    else:
+        rep.ok("T-KEEP", "member-loop:every-member-inserted", vm.where(nb), "every path round the loop inserts the member, except the \"_kind\" branch")
+    return n
+
+
+def check_int_casts(ctx, rep, files=("encoding/json/decode.rs", "encoding/json/encode.rs", "encoding/zinc/encode.rs")):
+    """integer -> integer casts in the codecs must not be able to change the value: widening same-signedness only,
+    anything else needs a dominating range guard"""
+    prog = ctx.prog
+    W = {"u8": (8, 0), "u16": (16, 0), "u32": (32, 0), "u64": (64, 0), "usize": (64, 0), "u128": (128, 0), "i8": (8, 1), "i16": (16, 1), "i32": (32, 1), "i64": (64, 1), "isize": (64, 1), "i128": (128, 1), "char": (21, 0)}
+    n = 0
+    for b in prog.bodies.values():
+        if not b.file.endswith(files):
+            continue
+        k = 0
+        for bi, blk in enumerate(b.blocks):
+            for st in blk["stmts"]:
+                if st["k"] != "assign" or st["rv"]["k"] != "cast" or st["rv"]["ck"] != "IntToInt" or st.get("exp"):
+                    continue
+                f, t = st["rv"].get("from_ty"), st["rv"].get("ty")
+                if f not in W or t not in W:
+                    continue
+                (fw, fs), (tw, ts) = W[f], W[t]
+                lossless = (fs == ts and tw >= fw) or (fs == 0 and ts == 1 and tw > fw)
+                n += 1
+                key = "intcast:%s:%s->%s#%d" % (b.short, f, t, k)
+                k += 1
+                if lossless:
+                    rep.ok("R-CAST", key, b.where(bi, st.get("line")), "%s -> %s cannot change the value" % (f, t))
+                    continue
+                src = G.describe(b, st["rv"]["op"])
+                lim = (1 << (tw - ts)) - 1
+                guarded = False
+                for g in G.guards_at(b, bi):
+                    if g.op in ("Le", "Lt") and g.b is not None and g.b.kind == "const" and g.a.same(src) and g.b.v - (1 if g.op == "Lt" else 0) <= lim:
+                        guarded = True
+                    if g.op == "Eq" and g.b is not None and g.b.kind == "const" and g.a.same(src) and 0 <= g.b.v <= lim:
+                        guarded = True
+                if guarded:
+                    rep.ok("R-CAST", key, b.where(bi, st.get("line")), "%s -> %s under a dominating range guard" % (f, t))
+                else:
+                    rep.bad("R-CAST", "R-CAST:intcast:%s:%s->%s" % (b.short, f, t), b.where(bi, st.get("line")), "%s casts %s to %s without a range guard: values outside the target range wrap (e.g. a JSON integer above i64::MAX becomes negative)" % (b.short.split("::")[-1], f, t))
+    return n
